@@ -61,6 +61,7 @@ Proof.
   - repeat dm; cbn; lia.
   - cbn. lia.
   - unfold do_authorize_cookie, do_authorize_at. repeat dm; subst; now_chain.
+  - (* AuthorizeRT *) unfold do_authorize_rt, mint_if. cbv zeta. repeat dm; subst; now_chain.
 Qed.
 
 (* FINAL: once dead, dead after every further operation *)
